@@ -147,6 +147,9 @@ UNITS.append(instantiate_unit("C14"))
 from contracts.adapt_arms import dataclass_unit  # noqa: E402
 UNITS.append(dataclass_unit("C14"))
 
+from contracts.class_type import class_type_unit  # noqa: E402
+UNITS.append(class_type_unit("C14"))
+
 VERIFIED_CALLEES = ("is_subclass_spec",)
 LEVEL = "other"
 TECHNIQUE = "contract-based deductive verification of the spec-normalisation helpers (VCs from the real AST, complete case analysis of spec shapes) + bounded run-time contract checking on generated class families with a constructor log"
